@@ -1,6 +1,7 @@
 package sim
 
 import (
+	"sync/atomic"
 	"crypto/sha256"
 	"encoding/hex"
 	"encoding/json"
@@ -51,6 +52,7 @@ type Found struct {
 	Spec  *RunSpec  `json:"spec"`
 	Hash  string    `json:"log_hash"`
 	Steps int       `json:"steps"`
+	Hang  bool      `json:"hang,omitempty"`
 }
 
 type ShardOut struct {
@@ -97,7 +99,9 @@ func (c *DriveCtx) Exec(spec *RunSpec) *Result {
 	if spec.Property == "" {
 		spec.Property = c.P.ID
 	}
+	watchSpec.Store(spec)
 	res := Execute(c.T, spec)
+	watchSpec.Store(nil)
 	if res.Harness == "" && c.P.Oracle != nil && res.Sim.World != nil {
 		func() {
 			defer func() {
@@ -289,6 +293,35 @@ func faultKindFor(site string) string {
 	return "cb_err"
 }
 
+// ---- wall-clock watchdog ---------------------------------------------------------
+
+var watchSpec atomic.Pointer[RunSpec]
+
+// startWatchdog: if a run makes no scheduling step for hangS seconds of real time, a task is spinning without
+// reaching a seam or returning (the scheduler cannot pre-empt it). onHang must not return.
+func startWatchdog(onHang func(sp *RunSpec, secs int)) {
+	hangS := envInt("VERIF_HANG_S", 20)
+	go func() {
+		last, since := int64(-1), time.Now()
+		for {
+			time.Sleep(500 * time.Millisecond)
+			hb := heartbeat.Load()
+			sp := watchSpec.Load()
+			if sp == nil || hb != last {
+				last, since = hb, time.Now()
+				continue
+			}
+			if time.Since(since) > time.Duration(hangS)*time.Second {
+				onHang(sp, hangS)
+			}
+		}
+	}()
+}
+
+func hangViolation(secs int) Violation {
+	return Violation{Property: "C11", Inv: "no-return", Site: "cpu-loop", Detail: fmt.Sprintf("a task ran for more than %d s of real time without reaching a seam call or returning (busy loop)", secs)}
+}
+
 // ---- shard main ---------------------------------------------------------------
 
 func envInt(name string, def int) int {
@@ -324,6 +357,29 @@ func runShard(t *testing.T) {
 	c := &DriveCtx{T: t, P: p, Tier: tier, Out: out, distinct: map[string]bool{}, seenSig: map[string]bool{},
 		deadline: time.Now().Add(time.Duration(budget) * time.Second), maxFound: 6}
 	start := time.Now()
+	flushOut := func() {
+		out.WallS = time.Since(start).Seconds()
+		sort.Strings(out.Distinct)
+		b, _ := json.Marshal(out)
+		if path := os.Getenv("VERIF_OUT"); path != "" {
+			if err := os.WriteFile(path, b, 0o644); err != nil {
+				fmt.Fprintln(os.Stderr, err)
+				os.Exit(2)
+			}
+		} else {
+			os.Stdout.Write(b)
+		}
+	}
+	startWatchdog(func(sp *RunSpec, secs int) {
+		if pid == "C11" {
+			out.Found = append(out.Found, Found{Viol: hangViolation(secs), Spec: sp.Clone(), Hash: "hang", Steps: 1, Hang: true})
+			out.Runs++
+		} else {
+			out.Harness = append(out.Harness, "a run hung (busy loop in a task; C11 class): "+sp.Gen)
+		}
+		flushOut()
+		os.Exit(0)
+	})
 	for k := shard; ; k += nshard {
 		if tier == "quick" && k >= cases {
 			break
@@ -338,17 +394,7 @@ func runShard(t *testing.T) {
 		p.Drive(c, r, k)
 		out.Cases++
 	}
-	out.WallS = time.Since(start).Seconds()
-	sort.Strings(out.Distinct)
-	b, _ := json.Marshal(out)
-	if path := os.Getenv("VERIF_OUT"); path != "" {
-		if err := os.WriteFile(path, b, 0o644); err != nil {
-			fmt.Fprintln(os.Stderr, err)
-			os.Exit(2)
-		}
-	} else {
-		os.Stdout.Write(b)
-	}
+	flushOut()
 }
 
 // runReplay re-executes a replay file; prints one JSON line with what happened.
@@ -370,6 +416,12 @@ func runReplay(t *testing.T) {
 	}
 	out := &ShardOut{Fired: map[string]int{}, Probes: map[string]int{}, Preempt: map[string]int{}, Verdicts: map[string]int{}, Other: map[string]int{}, Uncontrolled: map[string]int{}}
 	c := &DriveCtx{T: t, P: p, Out: out, distinct: map[string]bool{}, seenSig: map[string]bool{}, deadline: time.Now().Add(time.Hour), maxFound: 100}
+	startWatchdog(func(sp *RunSpec, secs int) {
+		hv := hangViolation(secs)
+		rb, _ := json.Marshal(J{"reproduced": hv.Sig() == f.Viol.Sig(), "log_hash": "hang", "hash_matches": f.Hash == "hang", "violations": []Violation{hv}, "harness": "", "diverged": 0})
+		fmt.Println("REPLAY " + string(rb))
+		os.Exit(0)
+	})
 	res := c.Exec(f.Spec.Clone())
 	same := false
 	for _, v := range res.Viol {
